@@ -1,13 +1,16 @@
 package main
 
 import (
+	"encoding/json"
 	"fmt"
 	"sort"
 	"strconv"
 	"strings"
+	"sync"
 
 	"com.tuntun.rangers/node/src/common"
 	"com.tuntun.rangers/node/src/middleware"
+	"com.tuntun.rangers/node/src/middleware/db"
 	"com.tuntun.rangers/node/src/middleware/types"
 	"com.tuntun.rangers/node/src/service"
 	"com.tuntun.rangers/node/src/storage/account"
@@ -24,6 +27,8 @@ type World struct {
 	next  int
 	cfg   [4]bool // p016 p018 p021 p023
 	limit int
+
+	bigData bool
 }
 
 func newWorld(pool service.TransactionPool) *World {
@@ -77,13 +82,22 @@ func (w *World) NewTx(hash []byte, src string, nonce, req, gate uint64) (int, st
 	id := w.next
 	w.next++
 	tx := &types.Transaction{Source: src, Target: "0x" + strings.Repeat("ab", 20), Type: types.TransactionTypeOperatorEvent,
-		Data: "d" + strconv.Itoa(id), Nonce: nonce, RequestId: req, Hash: common.BytesToHash(hash), Time: "t", ChainId: "9500"}
+		Data: w.dataFor(id), Nonce: nonce, RequestId: req, Hash: common.BytesToHash(hash), Time: "t", ChainId: "9500"}
 	if gate != 0 {
 		tx.SubTransactions = []types.UserData{{Address: gate}}
 	}
 	w.txs[id] = tx
 	w.ids[tx] = id
 	return id, fmt.Sprintf("tx %d %s %s %d %d %d", id, hx.Hex(tx.Hash.Bytes()), hx.Hex([]byte(src)), nonce, req, gate)
+}
+
+// dataFor: payload of a new transaction; bigData scripts use ~1.2 KiB so that a block's executed
+// records exceed the 100 KiB batch threshold.
+func (w *World) dataFor(id int) string {
+	if w.bigData {
+		return "d" + strconv.Itoa(id) + strings.Repeat("x", 1200)
+	}
+	return "d" + strconv.Itoa(id)
 }
 
 func idList(ids []int) string {
@@ -206,6 +220,117 @@ func (w *World) Get(id int) string {
 		return "pending " + strconv.Itoa(pid)
 	}
 	return fmt.Sprintf("executed %s %d %d", hx.Hex([]byte(tx.Source)), tx.Nonce, tx.RequestId)
+}
+
+// ---------------------------------------------------------------------------
+// write gate: physical writes to the executed store ("tx") of the running MarkExecuted call
+
+type gateT struct {
+	mu      sync.Mutex
+	armed   bool
+	crashAt int   // refuse the crashAt-th batch write (1-based); 0 = never
+	writes  []int // record counts of the batch writes let through
+}
+
+var gate gateT
+
+func installGate() {
+	db.VerifC05Gate = func(file, op string, key []byte, n int) bool {
+		gate.mu.Lock()
+		defer gate.mu.Unlock()
+		if !gate.armed || file != "tx" || op != "batch" {
+			return true
+		}
+		if gate.crashAt > 0 && len(gate.writes)+1 == gate.crashAt {
+			return false
+		}
+		gate.writes = append(gate.writes, n)
+		return true
+	}
+}
+
+// recordSize: byte length of the JSON record MarkExecuted stores for this receipt (what batch.ValueSize counts).
+func recordSize(header *types.BlockHeader, receipt *types.Receipt, tx *types.Transaction) int {
+	var er service.ExecutedReceipt
+	er.BlockHash = header.Hash
+	er.Height = receipt.Height
+	er.TxHash = receipt.TxHash
+	er.Status = receipt.Status
+	er.Logs = receipt.Logs
+	er.ContractAddress = receipt.ContractAddress
+	er.GasUsed = receipt.GasUsed
+	if 0 != len(receipt.Result) {
+		er.Result = receipt.Result
+	}
+	e := &service.ExecutedTransaction{Receipt: er}
+	e.Transaction, _ = types.MarshalTransaction(tx)
+	b, _ := json.Marshal(e)
+	return len(b)
+}
+
+func (w *World) findTx(tids []int, h common.Hash, i int) *types.Transaction {
+	l := w.list(tids)
+	if i < len(l) && l[i].Hash == h {
+		return l[i]
+	}
+	for _, t := range l {
+		if t.Hash == h {
+			return t
+		}
+	}
+	return nil
+}
+
+// MarkZ: MarkExecuted observed through the write gate; crashAt > 0 refuses that physical write.
+// Returns the op line (with the record sizes) and the answer "<ok|crash|PANIC> <records per write>".
+func (w *World) MarkZ(crashAt int, rids, tids, eids []int) (string, string) {
+	blockNo++
+	header := &types.BlockHeader{Height: blockNo, Hash: common.BytesToHash([]byte(fmt.Sprintf("block-%d", blockNo)))}
+	receipts := make(types.Receipts, 0, len(rids))
+	sizes := make([]int, 0, len(rids))
+	for i, id := range rids {
+		tx := w.txs[id]
+		r := types.NewReceipt(nil, false, 0, blockNo, "ok", tx.Source, "")
+		r.TxHash = tx.Hash
+		receipts = append(receipts, r)
+		sizes = append(sizes, recordSize(header, r, w.findTx(tids, tx.Hash, i)))
+	}
+	var ev []common.Hash
+	if len(eids) > 0 {
+		ev = w.hashes(eids)
+	}
+	op := fmt.Sprintf("markz %d %s %s %s %s", crashAt, idList(rids), idList(tids), idList(eids), idList(sizes))
+	gate.mu.Lock()
+	gate.armed, gate.crashAt, gate.writes = true, crashAt, nil
+	gate.mu.Unlock()
+	res := "ok"
+	func() {
+		defer func() {
+			if r := recover(); r != nil {
+				if _, ok := r.(db.VerifC05Crash); ok {
+					res = "crash"
+				} else {
+					res = "PANIC"
+				}
+			}
+		}()
+		w.pool.MarkExecuted(header, receipts, w.list(tids), ev)
+	}()
+	gate.mu.Lock()
+	ws := gate.writes
+	gate.armed = false
+	gate.mu.Unlock()
+	return op, res + " " + idList(ws)
+}
+
+func (w *World) Evicted(id int) bool { return service.VerifPoolEvictedContains(w.pool, w.txs[id].Hash) }
+
+func (w *World) Clear() { w.pool.Clear() }
+
+// Restart: what a process restart leaves of the pool (store kept, memory gone).
+func (w *World) Restart() {
+	service.VerifC05RestartTxPool()
+	w.pool = service.GetTransactionPool()
 }
 
 func (w *World) Has(id int) bool  { return w.pool.IsExisted(w.txs[id].Hash) }
